@@ -646,6 +646,11 @@ class Impl:
             src, u = args
             srcm = 'a%d' % src
             f = self.handles[srcm][u]
+            if srcm == m or u % 2:
+                # the module-level function (for a copy into the SAME manager it returns a
+                # new handle on the same node, which is what the model's copy does; the
+                # method `BDD.copy` would return the argument itself)
+                return self._h(m, _a.copy_bdd(f, a))
             return self._h(m, self.amgr[srcm].copy(f, a))
         if name == 'assert_consistent':
             return a.assert_consistent()
